@@ -180,6 +180,158 @@ class DeMorgan(ast.NodeTransformer):
         return node
 
 
+_NO_HOIST = (ast.IfExp, ast.BoolOp, ast.Lambda, ast.ListComp, ast.SetComp, ast.DictComp, ast.GeneratorExp, ast.Starred, ast.Yield, ast.YieldFrom,
+             ast.Await, ast.NamedExpr, ast.JoinedStr)
+
+
+class ArgTemps(ast.NodeTransformer):
+    """G: A-normal form of call arguments - a call nested in the argument list of another call is bound to a temporary first
+    (`f(a, g(b))` -> `_t1 = g(b); f(a, _t1)`), in evaluation order, for plain statements whose expression has no conditional /
+    short-circuit / comprehension part and whose earlier arguments are names, constants, attribute chains or temporaries."""
+
+    def __init__(self):
+        self.n = 0
+
+    @staticmethod
+    def _simple(e):
+        while isinstance(e, ast.Attribute):
+            e = e.value
+        return isinstance(e, (ast.Name, ast.Constant))
+
+    def _hoist(self, expr, pre):
+        """rewrites nested calls inside `expr` (a Call) bottom-up, appending assignments to `pre`"""
+        if not isinstance(expr, ast.Call) or not self._simple(expr.func if not isinstance(expr.func, ast.Call) else ast.Constant(0)):
+            return expr
+        ok_left = True
+        for i, a in enumerate(expr.args):
+            if isinstance(a, ast.Call) and ok_left and not any(isinstance(x, _NO_HOIST) for x in ast.walk(a)):
+                a2 = self._hoist(a, pre)
+                self.n += 1
+                name = f"_arg{self.n}_v"
+                pre.append(ast.copy_location(ast.Assign(targets=[ast.Name(id=name, ctx=ast.Store())], value=a2), a))
+                expr.args[i] = ast.copy_location(ast.Name(id=name, ctx=ast.Load()), a)
+            elif not self._simple(a):
+                ok_left = False
+        if ok_left:
+            for k in expr.keywords:
+                a = k.value
+                if k.arg is not None and isinstance(a, ast.Call) and ok_left and not any(isinstance(x, _NO_HOIST) for x in ast.walk(a)):
+                    a2 = self._hoist(a, pre)
+                    self.n += 1
+                    name = f"_arg{self.n}_v"
+                    pre.append(ast.copy_location(ast.Assign(targets=[ast.Name(id=name, ctx=ast.Store())], value=a2), a))
+                    k.value = ast.copy_location(ast.Name(id=name, ctx=ast.Load()), a)
+                elif not self._simple(a):
+                    ok_left = False
+        return expr
+
+    def _block(self, stmts):
+        out = []
+        for s in stmts:
+            pre = []
+            if isinstance(s, (ast.Assign, ast.Return, ast.Expr)) and isinstance(s.value, ast.Call) and not any(isinstance(x, _NO_HOIST) for x in ast.walk(s.value)):
+                s.value = self._hoist(s.value, pre)
+            out += pre + [s]
+        return out
+
+    def visit_FunctionDef(self, node):
+        self.generic_visit(node)
+        return node
+
+    def generic_visit(self, node):
+        super().generic_visit(node)
+        if isinstance(node, (ast.Module, ast.ClassDef)):
+            return node  # class bodies / module level: names would become attributes
+        for field in ("body", "orelse", "finalbody"):
+            v = getattr(node, field, None)
+            if isinstance(v, list) and v and isinstance(v[0], ast.stmt):
+                setattr(node, field, self._block(v))
+        return node
+
+    def visit_Lambda(self, node):
+        return node
+
+
+class CompToLoop(ast.NodeTransformer):
+    """H: `x = [elt for t in it if c]` -> `x = []` + loop with append; `x = {k: v for ...}` -> `x = {}` + loop with a keyed store
+    (single generator; the loop targets are used nowhere else in the function, so their leaking into the function scope is harmless)"""
+
+    def visit_FunctionDef(self, node):
+        self.generic_visit(node)
+        counts = {}
+        for n in ast.walk(node):
+            if isinstance(n, ast.Name):
+                counts[n.id] = counts.get(n.id, 0) + 1
+            elif isinstance(n, ast.arg):
+                counts[n.arg] = counts.get(n.arg, 0) + 1
+
+        def block(stmts):
+            out = []
+            for s in stmts:
+                for field in ("body", "orelse", "finalbody"):
+                    v = getattr(s, field, None)
+                    if isinstance(v, list) and v and isinstance(v[0], ast.stmt) and not isinstance(s, (ast.FunctionDef, ast.ClassDef)):
+                        setattr(s, field, block(v))
+                c = s.value if isinstance(s, ast.Assign) and len(s.targets) == 1 and isinstance(s.targets[0], ast.Name) else None
+                if not isinstance(c, (ast.ListComp, ast.DictComp)) and isinstance(s, (ast.Assign, ast.Return, ast.Expr)) and s.value is not None:
+                    # a comprehension that is evaluated first: the leading argument along a chain of calls / method receivers
+                    holder, cur = None, s.value
+                    while isinstance(cur, ast.Call):
+                        if isinstance(cur.func, ast.Attribute) and isinstance(cur.func.value, ast.Call):
+                            cur = cur.func.value
+                            continue
+                        f = cur.func
+                        while isinstance(f, ast.Attribute):
+                            f = f.value
+                        if not isinstance(f, ast.Name) or not cur.args:
+                            break
+                        if isinstance(cur.args[0], (ast.ListComp, ast.DictComp)):
+                            holder = cur
+                            break
+                        cur = cur.args[0]
+                    if holder is not None:
+                        self.k = getattr(self, "k", 0) + 1
+                        tmp = f"_comp{self.k}_v"
+                        comp = holder.args[0]
+                        holder.args[0] = ast.copy_location(ast.Name(id=tmp, ctx=ast.Load()), comp)
+                        first = ast.copy_location(ast.Assign(targets=[ast.Name(id=tmp, ctx=ast.Store())], value=comp), s)
+                        out += block([first])
+                        out.append(s)
+                        continue
+                if isinstance(c, (ast.ListComp, ast.DictComp)) and len(c.generators) == 1 and not c.generators[0].is_async:
+                    g = c.generators[0]
+                    tnames = [x.id for x in ast.walk(g.target) if isinstance(x, ast.Name)]
+                    inner = sum(1 for x in ast.walk(c) if isinstance(x, ast.Name) and x.id in tnames)
+                    x = s.targets[0].id
+                    uses_x = any(isinstance(y, ast.Name) and y.id == x for y in ast.walk(c))
+                    nested = any(isinstance(y, (ast.ListComp, ast.DictComp, ast.SetComp, ast.GeneratorExp, ast.Lambda)) for y in ast.walk(c) if y is not c)
+                    if not uses_x and not nested:
+                        self.k = getattr(self, "k", 0) + 1
+                        ren = {t: f"{t}_h{self.k}" for t in tnames}
+                        for y in ast.walk(c):
+                            if isinstance(y, ast.Name) and y.id in ren:
+                                y.id = ren[y.id]
+                        if isinstance(c, ast.ListComp):
+                            init = ast.List(elts=[], ctx=ast.Load())
+                            step = ast.Expr(value=ast.Call(func=ast.Attribute(value=ast.Name(id=x, ctx=ast.Load()), attr="append", ctx=ast.Load()), args=[c.elt], keywords=[]))
+                        else:
+                            init = ast.Dict(keys=[], values=[])
+                            step = ast.Assign(targets=[ast.Subscript(value=ast.Name(id=x, ctx=ast.Load()), slice=c.key, ctx=ast.Store())], value=c.value)
+                        body = [step]
+                        for cond in reversed(g.ifs):
+                            body = [ast.If(test=cond, body=body, orelse=[])]
+                        loop = ast.For(target=g.target, iter=g.iter, body=body, orelse=[])
+                        out += [ast.copy_location(ast.Assign(targets=[ast.Name(id=x, ctx=ast.Store())], value=init), s), ast.copy_location(loop, s)]
+                        continue
+                out.append(s)
+            return out
+        node.body = block(node.body)
+        return node
+
+    def visit_Lambda(self, node):
+        return node
+
+
 def overlay(root: str, variant: str) -> Dict[str, str]:
     out = {}
     pkg = os.path.join(root, "src", "torchphysics")
@@ -193,8 +345,8 @@ def overlay(root: str, variant: str) -> Dict[str, str]:
             if variant == "B":
                 tree.body = [Rename().visit(b) if isinstance(b, (ast.FunctionDef, ast.ClassDef)) else b for b in tree.body]
                 ast.fix_missing_locations(tree)
-            elif variant in ("C", "D", "E", "F"):
-                tree = {"C": InverseSpelling, "D": BranchSwap, "E": ReturnTemp, "F": DeMorgan}[variant]().visit(tree)
+            elif variant in ("C", "D", "E", "F", "G", "H"):
+                tree = {"C": InverseSpelling, "D": BranchSwap, "E": ReturnTemp, "F": DeMorgan, "G": ArgTemps, "H": CompToLoop}[variant]().visit(tree)
                 ast.fix_missing_locations(tree)
             out[os.path.relpath(path, root)] = ast.unparse(tree) + "\n"
     return out
